@@ -380,7 +380,7 @@ Section Unaff.
       assert (HdF2 : ls_data sF2 = ls_data sF) by (subst sF2; destruct (rs_err res); reflexivity).
       assert (Hsm : ls_data (merge_result f res (select_items (ls_data sF) (f_path f)) batchF sF2) = ls_data sF).
       { rewrite <- HdF2. subst res cl. specialize (Hloud _ _ EF). rewrite Hk in Hloud.
-        apply (proj2 (loud_outcome answer root_answer f k _ _ _ _ _ _ sF2 Hrobj Hd Hloud HP)). }
+        apply (proj1 (proj2 (loud_outcome answer root_answer f k _ _ _ _ _ _ sF2 Hrobj Hd Hloud HP))). }
       destruct (Hsame _ Hsm) as [A B]. split; [exact A|]. split; [exact B|]. intros E. discriminate. }
     (* unfaulted: the clean response *)
     assert (HsD : sub_b (ls_data sF) D = true) by (eapply sub_trans; [exact (R_sub _ _ HR)|exact Hinfl0]).
